@@ -308,12 +308,14 @@ static void mi_heap_free(mi_heap_t* heap) {
 }
 
 // return a heap on the same thread as `heap` specialized for the specified tag (if it exists)
+// note: this is used to reclaim abandoned pages; never return a `no_reclaim` heap as such heap can be
+// destroyed (`mi_heap_destroy`) which would free the (still live) blocks of other threads in the reclaimed pages.
 mi_heap_t* _mi_heap_by_tag(mi_heap_t* heap, uint8_t tag) {
-  if (heap->tag == tag) {
+  if (heap->tag == tag && !heap->no_reclaim) {
     return heap;
   }
   for (mi_heap_t *curr = heap->tld->heaps; curr != NULL; curr = curr->next) {
-    if (curr->tag == tag) {
+    if (curr->tag == tag && !curr->no_reclaim) {
       return curr;
     }
   }
